@@ -315,6 +315,16 @@ theorem dpkgDefsToVulns_eq (root : OvalRoot) (proto : ProtoFn) :
       dpkgDefsToVulns_eq root proto ds (fun d' hd' => h d' (List.mem_cons_of_mem _ hd'))]
     simp
 
+/-! ### OVAL: Oracle prototypes -/
+
+/-- The distributions of the known platform strings of a definition, in document order. -/
+def oraclePlatformDists (platformDist : List (String × String)) (d : OvalDef) : List String :=
+  d.platforms.flatMap fun ps => ps.filterMap fun p => assoc? platformDist p
+
+/-- The Oracle prototype of a definition for one distribution. -/
+def oracleProtoOf (sev : String → Nat) (updater : String) (d : OvalDef) (dist : String) : Vuln :=
+  { updater := updater, name := d.title, desc := d.desc, links := ovalLinks d, sev := d.severity, nsev := sev d.severity,
+    dist := dist, issued := d.issued }
 /-! ### OSV: intervals and the event machine -/
 
 /-- How an interval ends. -/
